@@ -1,6 +1,7 @@
 from props import job
 
 PROP = dict(
+    technique='rapid-generated asynchronous update/sign/revoke schedules on real lnwallet channel pairs; model-based oracle (BOLT-2 bookkeeping model predicts every persisted commitment) + signature acceptance + cross-party tx identity + conservation invariants',
     level="exploration",
     rule=("rapid draws channel parameters (8 channel types, opener, capacity, split, asymmetric dust limits, "
           "fee rate, HTLC limits) and an action schedule (add with dust-boundary-biased amounts and duplicates, "
